@@ -61,6 +61,15 @@ func (g *gen) policyScenario(w *world, pa, pb int, form int) {
 	if g.r.Intn(3) == 0 {
 		text = append(text, []byte(" with spaces\tand tabs ")...)
 	}
+	if g.r.Intn(3) == 0 {
+		// lengths around the size classes of the allocator (a copy of the text has spare capacity
+		// there, which matters to anything that appends to it)
+		n := []int{257, 289, 321, 513, 577, 641, 705, 1025}[g.r.Intn(8)] + g.r.Intn(40)
+		text = make([]byte, n)
+		for i := range text {
+			text[i] = byte('a' + g.r.Intn(26))
+		}
+	}
 	olog.ok("C16")
 	checkWire := func(p *party, pol int, ms []otr3.ValidMessage) {
 		for _, m := range reassembleAll(ms) {
